@@ -610,7 +610,9 @@ func decodeArray(raw []byte, elemOid int) []interface{} {
 }
 
 func parseArrayElements(raw []byte, off, count, elemOid, elemLen, elemAlign int, fixed bool, nulls []byte) []interface{} {
-	elems := make([]interface{}, 0, count)
+	// count comes from the dimensions in the header; a stored element takes at least one byte, so do not
+	// reserve more than the value can hold (all-NULL arrays grow on demand)
+	elems := make([]interface{}, 0, min(count, len(raw)))
 	for i := 0; i < count; i++ {
 		if nulls != nil && nulls[i/8]&(1<<(i%8)) == 0 {
 			elems = append(elems, nil)
